@@ -292,7 +292,9 @@ Section Run.
             end
         end
     | OMix chans fracs =>
-        if mix_valid (zlen (d_mix (s_d st))) chans then
+        (* ConfigureMixFraction: unequal numbers of fractions and channel indices are an error *)
+        if negb (zlen fracs =? zlen chans) then (st, RMix false)
+        else if mix_valid (zlen (d_mix (s_d st))) chans then
           match mix_apply nsamp chans fracs (d_mix (s_d st)) with
           | Ok mx => ({| s_pend := s_pend st;
                          s_d := {| d_next := d_next (s_d st); d_ext := d_ext (s_d st);
